@@ -165,6 +165,77 @@ theorem dpkg_prerelease_sorts_before (runs : List Bytes) (hne : runs ≠ []) (hr
   simp only [List.length_append, List.length_cons]
   omega
 
+/-! ### the whole dpkg comparison: epoch, upstream version, revision -/
+
+theorem contains_false_of_not_mem (s : Bytes) (c : UInt8) (h : c ∉ s) : s.contains c = false := by
+  simpa using h
+
+/-- parseversion on `upstream-revision` without epoch: the split is at the LAST hyphen -/
+theorem dpkgSplit_rev (u r : Bytes) (hc : colon ∉ u ++ minus :: r) (hr : minus ∉ r) :
+    dpkgSplit (u ++ minus :: r) = ([], u, r) := by
+  unfold dpkgSplit
+  have h1 : (u ++ minus :: r).contains colon = false := contains_false_of_not_mem _ _ hc
+  have h2 : (u ++ minus :: r).contains minus = true := by simp
+  simp only [h1, Bool.false_eq_true, if_false, h2, if_true]
+  have hrev : (u ++ minus :: r).reverse = r.reverse ++ minus :: u.reverse := by simp
+  have hd : ∀ x ∈ r.reverse, (x != minus) = true := by
+    intro x hx; simp only [bne_iff_ne, ne_eq]; intro e; subst e; exact hr (List.mem_reverse.mp hx)
+  rw [hrev, takeWhile_append_stop (fun x => x != minus) _ minus _ hd (by simp),
+    dropWhile_append_stop (fun x => x != minus) _ minus _ hd (by simp)]
+  simp
+
+/-- … with an epoch: everything before the first colon -/
+theorem dpkgSplit_epoch_rev (e u r : Bytes) (he : colon ∉ e) (hr : minus ∉ r) :
+    dpkgSplit (e ++ colon :: (u ++ minus :: r)) = (e, u, r) := by
+  unfold dpkgSplit
+  have h1 : (e ++ colon :: (u ++ minus :: r)).contains colon = true := by simp
+  have hd : ∀ x ∈ e, (x != colon) = true := by
+    intro x hx; simp only [bne_iff_ne, ne_eq]; intro e'; subst e'; exact he hx
+  simp only [h1, if_true]
+  rw [takeWhile_append_stop (fun x => x != colon) _ colon _ hd (by simp),
+    dropWhile_append_stop (fun x => x != colon) _ colon _ hd (by simp)]
+  have h2 : (u ++ minus :: r).contains minus = true := by simp
+  simp only [List.drop_succ_cons, List.drop_zero, h2, if_true]
+  have hrev : (u ++ minus :: r).reverse = r.reverse ++ minus :: u.reverse := by simp
+  have hd2 : ∀ x ∈ r.reverse, (x != minus) = true := by
+    intro x hx; simp only [bne_iff_ne, ne_eq]; intro e'; subst e'; exact hr (List.mem_reverse.mp hx)
+  rw [hrev, takeWhile_append_stop (fun x => x != minus) _ minus _ hd2 (by simp),
+    dropWhile_append_stop (fun x => x != minus) _ minus _ hd2 (by simp)]
+  simp
+
+/-- **deb / ipk, full version strings**: `core~pre<m>-rev` sorts strictly before `core<m>-rev` under dpkg's
+    complete comparison (epoch, upstream, revision), for every numeric core, every prerelease (hyphens
+    allowed), every `m` that is empty or starts with a non-digit other than '~' (nfpm: "+metadata"), and
+    every hyphen-free revision -/
+theorem dpkg_compare_prerelease (runs : List Bytes) (hne : runs ≠ []) (hr : ∀ d ∈ runs, DigitRun d)
+    (pre m rev : Bytes) (hm : m = [] ∨ ∃ c t, m = c :: t ∧ isDigit c = false ∧ c ≠ tilde)
+    (hrev : minus ∉ rev)
+    (hcA : colon ∉ (core runs ++ tilde :: pre ++ m) ++ minus :: rev) (hcB : colon ∉ (core runs ++ m) ++ minus :: rev) :
+    dpkgCompare ((core runs ++ tilde :: pre ++ m) ++ minus :: rev) ((core runs ++ m) ++ minus :: rev) < 0 := by
+  unfold dpkgCompare
+  rw [dpkgSplit_rev _ _ hcA hrev, dpkgSplit_rev _ _ hcB hrev]
+  simp only [cmpDigits_self, ne_eq, not_true_eq_false, if_false]
+  have h := dpkg_prerelease_sorts_before runs hne hr pre m m hm
+  have hne0 : verrevcmp (core runs ++ tilde :: pre ++ m) (core runs ++ m) ≠ 0 := by omega
+  simp only [hne0, not_false_eq_true, if_true]
+  exact h
+
+/-- … and the same with an epoch on both sides -/
+theorem dpkg_compare_prerelease_epoch (e : Bytes) (he : colon ∉ e) (runs : List Bytes) (hne : runs ≠ [])
+    (hr : ∀ d ∈ runs, DigitRun d) (pre m rev : Bytes)
+    (hm : m = [] ∨ ∃ c t, m = c :: t ∧ isDigit c = false ∧ c ≠ tilde) (hrev : minus ∉ rev) :
+    dpkgCompare (e ++ colon :: ((core runs ++ tilde :: pre ++ m) ++ minus :: rev))
+      (e ++ colon :: ((core runs ++ m) ++ minus :: rev)) < 0 := by
+  unfold dpkgCompare
+  rw [dpkgSplit_epoch_rev _ _ _ he hrev, dpkgSplit_epoch_rev _ _ _ he hrev]
+  simp only [cmpDigits_self, ne_eq, not_true_eq_false, if_false]
+  have h := dpkg_prerelease_sorts_before runs hne hr pre m m hm
+  have hne0 : verrevcmp (core runs ++ tilde :: pre ++ m) (core runs ++ m) ≠ 0 := by omega
+  simp only [hne0, not_false_eq_true, if_true]
+  exact h
+
+example : dpkgCompare (b!"2:1.2.3~rc-1+git-4") (b!"2:1.2.3+git-4") < 0 := by decide
+
 /-! ### rpm: rpmvercmp -/
 
 theorem rsep_dot : rsep dot = true := by decide
